@@ -18,6 +18,8 @@ pub enum LitKind {
     MatchFlip(u8),
     /// previous byte
     Prev,
+    /// pseudo-random byte derived from the output position (incompressible runs)
+    Noise,
 }
 
 #[derive(Clone, Debug, PartialEq, Eq)]
@@ -107,27 +109,57 @@ pub struct ConcCfg {
 pub fn concretize(abs: &[AbsOp], cfg: ConcCfg) -> Vec<Op> {
     let mut it = Interp::new(cfg.dict);
     let mut ops: Vec<Op> = Vec::new();
-    for a in abs {
-        if !emit(a, &mut it, &mut ops, &cfg) {
+    for a in flatten(abs) {
+        if ops.len() >= cfg.max_ops {
             break;
         }
+        let op = concretize_one(a, &it, cfg.dict);
+        if it.out.len() + op_out_len(&op) > cfg.max_out {
+            break;
+        }
+        it.apply(&op).expect("concretised op must be valid");
+        ops.push(op);
     }
     ops
 }
 
-fn emit(a: &AbsOp, it: &mut Interp, ops: &mut Vec<Op>, cfg: &ConcCfg) -> bool {
-    if ops.len() >= cfg.max_ops {
-        return false;
+pub fn op_out_len(op: &Op) -> usize {
+    match op {
+        Op::Lit(_) | Op::ShortRep => 1,
+        Op::Match { len, .. } | Op::Rep { len, .. } => *len as usize,
     }
-    let op = match a {
-        AbsOp::Run { k, op } => {
-            for _ in 0..*k {
-                if !emit(op, it, ops, cfg) {
-                    return false;
-                }
-            }
-            return true;
+}
+
+/// Expand `Run`s lazily into a flat sequence of base ops.
+pub fn flatten<'a>(abs: &'a [AbsOp]) -> Box<dyn Iterator<Item = &'a AbsOp> + 'a> {
+    Box::new(abs.iter().flat_map(|a| -> Box<dyn Iterator<Item = &'a AbsOp> + 'a> {
+        match a {
+            AbsOp::Run { k, op } => Box::new(std::iter::repeat(&**op).take(*k as usize).flat_map(
+                |o| -> Box<dyn Iterator<Item = &'a AbsOp> + 'a> {
+                    match o {
+                        AbsOp::Run { .. } => flatten(std::slice::from_ref(o)),
+                        _ => Box::new(std::iter::once(o)),
+                    }
+                },
+            )),
+            _ => Box::new(std::iter::once(a)),
         }
+    }))
+}
+
+fn noise(pos: u64) -> u8 {
+    let mut x = pos.wrapping_mul(0x9E37_79B9_7F4A_7C15) ^ 0xD6E8_FEB8_6659_FD93;
+    x ^= x >> 32;
+    x = x.wrapping_mul(0xD6E8_FEB8_6659_FD93);
+    x ^= x >> 29;
+    (x >> 11) as u8
+}
+
+/// The concrete op a base abstract op stands for in the interpreter state `it`
+/// (always valid there). `dict` is the window size used for wrap targeting.
+pub fn concretize_one(a: &AbsOp, it: &Interp, dict: u64) -> Op {
+    match a {
+        AbsOp::Run { op, .. } => concretize_one(op, it, dict),
         AbsOp::Lit(kind, b) => {
             let rep_d = it.reps[0] as u64 + 1;
             let mb = if it.dist_ok(rep_d) {
@@ -139,7 +171,14 @@ fn emit(a: &AbsOp, it: &mut Interp, ops: &mut Vec<Op>, cfg: &ConcCfg) -> bool {
                 LitKind::Given => *b,
                 LitKind::MatchByte => mb,
                 LitKind::MatchFlip(i) => mb ^ (1 << (i & 7)),
-                LitKind::Prev => it.out.last().copied().unwrap_or(*b),
+                LitKind::Prev => {
+                    if it.avail() > 0 {
+                        it.out[it.out.len() - 1]
+                    } else {
+                        *b
+                    }
+                }
+                LitKind::Noise => noise(it.out.len() as u64) ^ *b,
             };
             Op::Lit(byte)
         }
@@ -148,7 +187,7 @@ fn emit(a: &AbsOp, it: &mut Interp, ops: &mut Vec<Op>, cfg: &ConcCfg) -> bool {
             if maxd == 0 {
                 Op::Lit(*dsel as u8)
             } else {
-                let dist = dist_of(*dclass, *dsel, maxd, it.avail(), cfg.dict);
+                let dist = dist_of(*dclass, *dsel, maxd, it.avail(), dict);
                 Op::Match {
                     dist: dist as u32,
                     len: len_of(*lclass, *lsel),
@@ -173,17 +212,7 @@ fn emit(a: &AbsOp, it: &mut Interp, ops: &mut Vec<Op>, cfg: &ConcCfg) -> bool {
                 Op::Lit(*lsel as u8)
             }
         }
-    };
-    let add = match op {
-        Op::Lit(_) | Op::ShortRep => 1,
-        Op::Match { len, .. } | Op::Rep { len, .. } => len as usize,
-    };
-    if it.out.len() + add > cfg.max_out {
-        return false;
     }
-    it.apply(&op).expect("concretised op must be valid");
-    ops.push(op);
-    true
 }
 
 // ---------------------------------------------------------------------------
@@ -195,6 +224,7 @@ fn lit_kind() -> impl Strategy<Value = LitKind> {
         2 => Just(LitKind::MatchByte),
         3 => (0u8..8).prop_map(LitKind::MatchFlip),
         1 => Just(LitKind::Prev),
+        1 => Just(LitKind::Noise),
     ]
 }
 
